@@ -89,7 +89,15 @@ def container_case(draw, tier="quick"):
                 mem = draw(st.sampled_from(NICE))
             else:
                 mem = draw(st.floats(0.01, 4.0))
-            segs.append({"cpu": base, "law": law, "mem": mem, "read": read})
+            sgd = {"cpu": base, "law": law, "mem": mem, "read": read}
+            if mem is not None and draw(st.integers(0, 5)) == 0:
+                # the fixed memory figure given as a numpy scalar instead of a Python number (same value)
+                import numpy as _np
+                kinds = ["np.float64", "np.float32"] + (["np.int64", "np.int32"] if float(mem) == int(mem) else [])
+                sgd["memtype"] = draw(st.sampled_from(kinds))
+                if sgd["memtype"] == "np.float32":
+                    mem = sgd["mem"] = float(_np.float32(mem))
+            segs.append(sgd)
             levels.append(mem if mem is not None else read)
             if mem is None and read > 0:
                 levels.append(20.0 / tps)
@@ -180,11 +188,18 @@ def build_pipeline(ops_spec, name="p", parents=None):
             key = (sg["cpu"], sg["law"], sg["mem"], sg["read"])
             if key not in same or k % 2:
                 # identical stages of an even-numbered operator are one Segment object added twice
-                same[key] = Segment(baseline_cpu_seconds=sg["cpu"], cpu_scaling=sg["law"], memory_gb=sg["mem"], storage_read_gb=sg["read"])
+                same[key] = Segment(baseline_cpu_seconds=sg["cpu"], cpu_scaling=sg["law"], memory_gb=typed(sg["mem"], sg.get("memtype")), storage_read_gb=sg["read"])
             o.add_segment(same[key])
         prev = o
         real.append(o)
     return p, real
+
+
+def typed(value, kind):
+    if kind is None or value is None:
+        return value
+    import numpy as np
+    return {"np.float64": np.float64, "np.float32": np.float32, "np.int64": np.int64, "np.int32": np.int32}[kind](value)
 
 
 def run_case(spec, tick_cap=None):
